@@ -39,9 +39,10 @@ def clean_name(n):
     return _CLOSURE.sub("{closure}", n)
 
 class Norm:
-    def __init__(self):
+    def __init__(self, input_widths=None):
         self.memo = {}
         self.unknown = set()
+        self.input_widths = dict(input_widths or {})
 
     def n(self, t):
         if not isinstance(t, tuple) or not t:
@@ -87,10 +88,20 @@ class Norm:
         k = t[0]
         if k == "SIG":
             return self.SIGW.get(t[1])
+        if k == "in":
+            return self.input_widths.get(t[1])
         if k == "SIG-lowS":
             return self.width(t[1])
         if k == "ENCPUB":
             return 49 if "P384" in repr(t[1])[:60] else None
+        if k == "LEFTPAD":
+            return t[1]
+        if k == "SETBYTE":
+            return self.width(t[1])
+        if k == "XPUB":
+            return 32
+        if k == "DH":
+            return 32 if t[1] == "X25519" else 48
         if k == "b":
             return len(t[1])
         if k in ("MAC", "H"):
@@ -275,6 +286,8 @@ class Norm:
                 return ("b", bytes(o[1] for o in ops))
             if t[1].startswith("closure:"):
                 return ("agg", "closure", ops)
+            if t[1].endswith("MontgomeryPoint::MontgomeryPoint") and len(ops) == 1:
+                return ops[0]
             return ("agg", t[1], ops)
         if k == "repeat":
             return ("repeat", N(t[1]), t[2])
@@ -304,6 +317,8 @@ class Norm:
             return ("cast", t[1], N(t[2]), t[3])
         if k == "tryarray":
             return ("tryarray", N(t[1]), t[2])
+        if k == "leftpad":
+            return ("LEFTPAD", t[1], N(t[2]))
         if k == "sinkstate":
             return ("SINK", t[1], ())
         if k == "sodium_xchacha20":
@@ -354,7 +369,8 @@ class Norm:
     def okv(self, inner):
         if isinstance(inner, tuple) and inner:
             if inner[0] in ("MACST", "HST", "MAC", "H", "CIPHER", "HKDF", "PBKDF2", "ARGON2", "AEADKEY", "MACKEY",
-                            "b", "sl", "cat", "in", "ENC", "AEAD_TAG", "AWSKEY", "HKDFOKM", "SIG", "RNG", "W"):
+                            "b", "sl", "cat", "in", "ENC", "AEAD_TAG", "AWSKEY", "HKDFOKM", "SIG", "RNG", "W",
+                            "XPUB", "EDPUB", "DH", "XSK", "PUB", "PARSEPT", "P384SK", "ENCPUB", "RSAENC", "SETBYTE", "INT", "TOBE", "LEFTPAD"):
                 return inner
             if inner[0] == "call":
                 return ("ok", inner)
@@ -436,6 +452,8 @@ class Norm:
             return self.absorb(st, data, "PAE")
         if how[0] == "apply_keystream":
             return st
+        if how[0] == "setbyte":
+            return ("SETBYTE", st, N(how[1]), N(how[2]))
         name = clean_name(how[0])
         idx = how[1]
         others = tuple(N(a) for a in how[2])
@@ -606,7 +624,124 @@ class Norm:
         r = self.sigcall(name, args)
         if r is not None:
             return r
+        r = self.dhcall(name, args)
+        if r is not None:
+            return r
         return ("call", name, args)
+
+    # ---- Diffie-Hellman / KEM algebra ---------------------------------
+    def leading_nonzero(self, x):
+        """Is the first byte of x provably non-zero? (recognises `x[0] |= c` with c != 0 as the last store to byte 0)"""
+        if isinstance(x, tuple) and x and x[0] == "SETBYTE" and x[2] == ("int", 0):
+            v = x[3]
+            if isinstance(v, tuple) and v[0] == "binop" and v[1] == "BitOr":
+                for side in (v[2], v[3]):
+                    if isinstance(side, tuple) and side[0] == "int" and (side[1] & 0xFF) != 0:
+                        return True
+            return False
+        if isinstance(x, tuple) and x and x[0] == "SETBYTE":
+            return self.leading_nonzero(x[1])
+        return False
+
+    def dh(self, group, a, b):
+        return ("DH", group, tuple(sorted([a, b], key=repr)))
+
+    def dhcall(self, name, args):
+        a0 = args[0] if args else None
+        u = self.unok
+        if name == "curve25519_dalek::scalar::clamp_integer":
+            return ("CLAMP", a0)
+        if name == "curve25519_dalek::scalar::Scalar::from_bytes_mod_order":
+            return ("XSCALAR", a0)
+        if name == "curve25519_dalek::edwards::EdwardsPoint::mul_base":
+            return ("EDPUB", a0)
+        if name == "curve25519_dalek::edwards::EdwardsPoint::to_montgomery":
+            x = u(a0)
+            if isinstance(x, tuple) and x[0] == "EDPUB":
+                return ("XPUB", x[1])
+        if name == "curve25519_dalek::edwards::CompressedEdwardsY::decompress":
+            x = a0
+            if isinstance(x, tuple) and x[0] == "agg" and x[1].endswith("CompressedEdwardsY") and x[2]:
+                pk = x[2][0]
+                if isinstance(pk, tuple) and pk[0] == "PUB" and pk[1] == "Ed25519" and pk[2][0] == "dalek-esk":
+                    return ("EDPUB", self.field(pk[2][1], 0))
+        if name == "curve25519_dalek::montgomery::<impl Mul<MontgomeryPoint> for Scalar>::mul":
+            b = args[1]
+            if isinstance(b, tuple) and b[0] == "agg" and b[1].endswith("MontgomeryPoint") and b[2]:
+                b = b[2][0]
+            if isinstance(b, tuple) and b[0] == "XPUB":
+                return self.dh("X25519", a0, b[1])
+        # libsodium
+        if name == "libsodium_rs::crypto_box::KeyPair::into_tuple":
+            return ("agg", "tuple", (("XPUB", ("BOXSK", a0)), ("BOXSK", a0)))
+        if name == "libsodium_rs::crypto_sign::ed25519_pk_to_curve25519":
+            pk = a0
+            if isinstance(pk, tuple) and pk[0] == "PUB" and pk[1] == "Ed25519" and pk[2][0] == "sodium-sk":
+                return ("XPUB", ("XSK", pk[2][1]))
+        if name == "libsodium_rs::crypto_sign::ed25519_sk_to_curve25519":
+            return ("XSK", a0)
+        if name == "libsodium_rs::crypto_scalarmult::curve25519::scalarmult":
+            b = u(args[1])
+            if isinstance(b, tuple) and b[0] == "XPUB":
+                return self.dh("X25519", u(a0), b[1])
+        # p384 (RustCrypto)
+        if re.match(r"ecdsa::signing::<impl From<&?SigningKey<NistP384>> for SecretKey<NistP384>>::from$", name):
+            return ("P384SK", ("p384-sk", u(a0)))
+        if name == "elliptic_curve::secret_key::SecretKey::<NistP384>::public_key":
+            if isinstance(a0, tuple) and a0[0] == "P384SK":
+                return ("PUB", "ECDSA-P384-SHA384", a0[1])
+        if name == "elliptic_curve::secret_key::SecretKey::<NistP384>::to_nonzero_scalar":
+            return a0
+        if name == "ecdsa::verifying::VerifyingKey::<NistP384>::as_affine":
+            return a0
+        if name in ("<PublicKey<NistP384> as ToEncodedPoint<NistP384>>::to_encoded_point",):
+            return ("ENCPUB", a0) if args[1] == ("int", 1) else ("ENCPUB-uncompressed", a0)
+        if name == "<PublicKey<NistP384> as Into<EncodedPoint<U48>>>::into":
+            return ("ENCPUB-uncompressed", a0)
+        if name == "sec1::point::EncodedPoint::<U48>::compress":
+            if isinstance(a0, tuple) and a0[0] == "ENCPUB-uncompressed":
+                return ("ENCPUB", a0[1])
+        if name.startswith("sec1::point::EncodedPoint::<U48>::from_bytes"):
+            return ("PARSEPT", u(a0))
+        if name.startswith("<AffinePoint<NistP384> as TryFrom<&EncodedPoint<"):
+            x = u(a0)
+            if isinstance(x, tuple) and x[0] == "PARSEPT":
+                y = u(x[1])
+                if isinstance(y, tuple) and y[0] == "ENCPUB":
+                    return y[1]
+        if name.startswith("elliptic_curve::ecdh::diffie_hellman::<NistP384"):
+            a, b = u(a0), u(args[1])
+            if isinstance(a, tuple) and a[0] == "P384SK" and isinstance(b, tuple) and b[0] == "PUB":
+                return self.dh("P-384", a[1], b[2])
+        # RSA-KEM (paseto-v1 PKE)
+        if name == "num_bigint_dig::biguint::BigUint::from_bytes_be":
+            x = a0
+            if isinstance(x, tuple) and x[0] == "LEFTPAD" and isinstance(x[2], tuple) and x[2][0] == "TOBE":
+                return x[2][1]
+            if isinstance(x, tuple) and x[0] == "TOBE":
+                return x[1]
+            return ("INT", x)
+        if name == "num_bigint_dig::biguint::BigUint::to_bytes_be":
+            v = u(a0)
+            if isinstance(v, tuple) and v[0] == "INT" and self.leading_nonzero(v[1]):
+                return v[1]
+            return ("TOBE", v)
+        if name.startswith("rsa::algorithms::rsa::rsa_encrypt"):
+            return ("RSAENC", a0, args[1])
+        if name.startswith("rsa::algorithms::rsa::rsa_decrypt_and_check"):
+            c = u(args[2])
+            if isinstance(c, tuple) and c[0] == "RSAENC" and c[1] == ("call", "RSA-public-key-of", (a0,)):
+                return c[2]
+        # aws-lc wrapper
+        if name == "lc::SigningKey::diffie_hellman":
+            b = u(args[1])
+            if isinstance(b, tuple) and b[0] == "PUB":
+                return self.dh("P-384", ("lc-sk", u(a0)), b[2])
+        if name == "lc::VerifyingKey::from_sec1_bytes":
+            x = u(a0)
+            if isinstance(x, tuple) and x[0] == "ENCPUB":
+                return x[1]
+        return None
 
     # ---- signatures -------------------------------------------------
     SIG_IDENT = ("ed25519::Signature::to_bytes", "ed25519::Signature::from_bytes", "ecdsa::Signature::<NistP384>::to_bytes",
